@@ -117,8 +117,11 @@ def _scenarios(M, PP, MP, thorough):
             log = []
             msgs = {}
 
+            same_pay = n % 2 == 0  # every other scenario: all messages carry the same payload octets (a meter repeating an unchanged reading)
+
             def mk_msg(r, c, k, t):
-                o = AObj("Message", {"is_valid": t != "I", "payload": (None if t == "N" else b"" if t == "E" else f"pay-{r}-{c}-{k}".encode()), "as_bytes": f"raw-{r}-{c}-{k}".encode()}, name=f"m{r}.{c}.{k}{t}")
+                o = AObj("Message", {"is_valid": t != "I", "payload": (None if t == "N" else b"" if t == "E" else b"unchanged reading" if same_pay else f"pay-{r}-{c}-{k}".encode()),
+                                     "as_bytes": f"raw-{r}-{c}-{k}".encode()}, name=f"m{r}.{c}.{k}{t}")
                 msgs[id(o)] = o
                 return o
             table = [[[mk_msg(r, c, k, t) for k, t in enumerate(cell)] for c, cell in enumerate(row)] for r, row in enumerate(script)]
